@@ -54,3 +54,49 @@ Theorem C06_segments_total : forall rd shape off w, reads_valid shape rd ->
   exists segs, slicers2segments rd shape off w = Ok segs.
 Proof. exact slicers2segments_total. Qed.
 Print Assumptions C06_segments_total.
+
+(* no read of calc_slicedefs leaves the array's extent [off, off + itemsize*size) and the
+   segment lengths add up to the bytes of the block read (so neither ValueError guard of
+   read_segments can fire on a long-enough file) — any rank, either order, any heuristic *)
+Theorem C06_reads_in_extent : forall (h : heuristic) ix shape w off o c segs rshape ps,
+  h_ok h -> 0 < w -> 0 <= off ->
+  canonical_slicers true ix shape = Ok c -> ix_valid shape c ->
+  calc_slicedefs ix shape w off o h = Ok (segs, rshape, ps) ->
+  Forall (fun s => 0 <= snd s /\ off <= fst s /\ (0 < snd s -> fst s + snd s <= off + w * prod shape)) segs
+  /\ fold_right (fun s a => snd s + a) 0 segs = w * prod rshape.
+Proof. exact calc_slicedefs_extent. Qed.
+Print Assumptions C06_reads_in_extent.
+
+(* THE property: for every file, shape (any rank, zero-length axes included), item size,
+   offset, order, heuristic (never answering 'contiguous' for an int, which the code rejects)
+   and every index whose canonical form c is valid (ints in range, as many real entries as
+   axes, non-zero steps): fileslice returns exactly NumPy's arr[ix] — same shape, same bytes.
+   numpy_slice is the specification built from Base/PySlice.v only. *)
+Theorem C06_fileslice_eq_numpy : forall (h : heuristic) file ix shape w off o c,
+  h_ok h -> 0 < w -> 0 <= off ->
+  canonical_slicers true ix shape = Ok c -> ix_valid shape c ->
+  off + w * prod shape <= zlen file ->
+  fileslice_h h file ix shape w off o = numpy_slice file ix shape w off o
+  /\ numpy_slice file ix shape w off o = Ok (result_of o file shape w off c).
+Proof. exact fileslice_eq_numpy. Qed.
+Print Assumptions C06_fileslice_eq_numpy.
+
+(* the default heuristic qualifies, for every threshold *)
+Theorem C06_threshold_heuristic_ok : forall t, h_ok (threshold_heuristic t).
+Proof. exact threshold_h_ok. Qed.
+Print Assumptions C06_threshold_heuristic_ok.
+
+Theorem C06_ix_validb_sound : forall ix shape, ix_validb shape ix = true -> ix_valid shape ix.
+Proof. exact ix_validb_spec. Qed.
+Print Assumptions C06_ix_validb_sound.
+
+(* non-vacuity: a 3-D C-order array, negative step, int, new axis and Ellipsis; the
+   hypotheses hold and both sides compute to the same non-trivial result *)
+Example C06_nonvacuous :
+  let file := map Z.of_nat (seq 0 70) in
+  let ix := [ISl (mkSl None None (Some (-2))); INew; IEll; IInt (-1)] in
+  exists c, canonical_slicers true ix [3;4;5] = Ok c /\ ix_validb [3;4;5] c = true
+    /\ 3 + 1 * prod [3;4;5] <= zlen file
+    /\ fileslice_h (threshold_heuristic 5) file ix [3;4;5] 1 3 OrdC
+       = Ok ([2;1;4], [47;52;57;62; 7;12;17;22]).
+Proof. eexists. split; [vm_compute; reflexivity|]. split; [vm_compute; reflexivity|]. split; vm_compute; [discriminate|reflexivity]. Qed.
